@@ -21,14 +21,15 @@ import (
 	"github.com/corestario/kyber/pairing/bls12381"
 
 	"github.com/lidofinance/dc4bc/airgapped"
+	"github.com/lidofinance/dc4bc/client/api/dto"
 	"github.com/lidofinance/dc4bc/fsm/types/requests"
 	"github.com/lidofinance/dc4bc/storage"
 )
 
 type secretStats struct {
-	Ops, Scenarios, Secrets, Haystacks, Searches, DealPairs, WrongPasswords, RoundPairs, NoncesSeen, SealedValues, RotatedRounds, LookAlikeRounds int
-	OutcomeHist                                                                                                                                   map[string]int
-	Monitors, Notes, Samples                                                                                                                      []string
+	Ops, Scenarios, Secrets, Haystacks, Searches, DealPairs, WrongPasswords, RoundPairs, NoncesSeen, SealedValues, RotatedRounds, LookAlikeRounds, VerifyCommands int
+	OutcomeHist                                                                                                                                                   map[string]int
+	Monitors, Notes, Samples                                                                                                                                      []string
 }
 
 type secretRun struct {
@@ -358,6 +359,38 @@ func (r *secretRun) scenario(outDir string, n, t int) {
 		dbDirs[i] = filepath.Join(nd.dir, "airgapped")
 	}
 	dbDirs = append(dbDirs, filepath.Join(rot.dir, "airgapped-rotated"))
+	// (c') the operator's verify command on every machine (it loads the keyring; whatever it leaves behind is in the database
+	// from then on), then every VALUE of every database, decoded through nested JSON and base64 like the outputs: no private
+	// key, no share
+	if stor, err := c.nodes[0].sigSvc.GetSignatures(&dto.DkgIdDTO{DkgID: round1}); err == nil {
+		for _, nd := range c.nodes {
+			for _, byID := range stor {
+				for _, entries := range byID {
+					for _, e := range entries {
+						if len(e.Signature) > 0 {
+							nd.air.VerifySign(e.SrcPayload, e.Signature, round1)
+							r.st.VerifyCommands++
+						}
+					}
+				}
+			}
+		}
+	}
+	for i, nd := range c.nodes {
+		snap := nd.air.VerifDBSnapshot()
+		var names []string
+		for k := range snap {
+			names = append(names, k)
+		}
+		sort.Strings(names)
+		for _, k := range names {
+			found := len(r.st.Monitors)
+			r.scan(fmt.Sprintf("%s the value stored under %q in the database of machine %d", tag, k, i), snap[k], atRest)
+			for j := found; j < len(r.st.Monitors); j++ {
+				r.st.Monitors[j] = strings.Replace(r.st.Monitors[j], "C04 no_secret_leaves:", "C04 encrypted_at_rest:", 1)
+			}
+		}
+	}
 	// (c0) what is sealed under the password (the long-term key pair, one keyring per round) is sealed with AES-GCM under ONE
 	// key per machine (one salt, one password): every stored value must have its own nonce (its first 12 bytes), otherwise
 	// two values share a keystream and a known plaintext (the public key, a broadcast public polynomial) opens the others
